@@ -82,7 +82,9 @@ impl Wire {
                 Some((_, r)) if r["k"] != "None" => catch(|| Frame::from(j::msg_from(r)).to_bytes_with_newline()).unwrap_or_default(),
                 _ => vec![],
             };
-            self.events.borrow_mut().push(json!({"e": "bridge", "line": j::bytes(&line), "res": res, "decodable": decodable, "direct_msg": direct_msg,
+            let write_fault = self.odk_st.borrow().io_log.iter().any(|e| e["e"] == "pw" && e["ret"] == -2);
+            self.odk_st.borrow_mut().io_log.clear();
+            self.events.borrow_mut().push(json!({"e": "bridge", "line": j::bytes(&line), "res": res, "decodable": decodable, "direct_msg": direct_msg, "write_fault": write_fault,
                 "reply_wire": j::bytes(&reply_wire),
                 "forwarded": fw.iter().map(|x| x.0.clone()).collect::<Vec<_>>(), "replies": fw.iter().map(|x| x.1.clone()).collect::<Vec<_>>(),
                 "wrote": j::bytes(&wrote), "bus_unchanged": bus_obs(&self.vbus.borrow(), self.n) == obs0}));
@@ -218,6 +220,24 @@ pub fn record_c17(a: &Args) -> usize {
                 ];
                 for line in inject {
                     odk_st.borrow_mut().rx.extend(line);
+                    wire.pump();
+                    ctl_st.borrow_mut().rx.clear();
+                    flush(&mut out);
+                }
+                // the bridge's port refuses one, two, three writes in a row while a reply is due; what is written afterwards
+                // must again be exactly the reply to the frame that was just read
+                for nfail in [1usize, 2, 3] {
+                    odk_st.borrow_mut().fail_writes = nfail;
+                    for _ in 0..3 {
+                        odk_st.borrow_mut().rx.extend(Frame::from(Message::QueryState(Address(me))).to_bytes_with_newline());
+                        wire.pump();
+                        ctl_st.borrow_mut().rx.clear();
+                        flush(&mut out);
+                    }
+                    odk_st.borrow_mut().fail_writes = 0;
+                    odk_st.borrow_mut().rx.extend(Frame::from(Message::Hello(Address(me.wrapping_add(50)))).to_bytes_with_newline());
+                    wire.pump();
+                    odk_st.borrow_mut().rx.extend(Frame::from(Message::Hello(Address(me))).to_bytes_with_newline());
                     wire.pump();
                     ctl_st.borrow_mut().rx.clear();
                     flush(&mut out);
